@@ -5,7 +5,7 @@ from __future__ import annotations
 import ast
 from typing import Optional
 
-from ..absval import Closure, Interp, Obj, Outcome, Sym, Unknown, enumerate_paths
+from ..absval import Closure, Interp, ItemGetter, LocalDef, Obj, Outcome, Sym, Unknown, enumerate_paths
 from ..flow import Formula, implication, is_stale, leaves, path_condition, truth_table
 from ..model import AnchorMissing, Func, Undecided, bind_args, dotted, norm, walk_no_nested
 from ..pointwise import PV, LabelSeq, Pointwise, required_bits
@@ -236,8 +236,8 @@ class CandInterp(Interp):
             key = kwargs.get("key")
             rev = kwargs.get("reverse", False)
             key_ok = False
-            if isinstance(key, Closure) and isinstance(items, list) and items:
-                kv = self.call_closure(key, [items[0]], node)
+            if isinstance(key, (Closure, LocalDef, ItemGetter, Func)) and isinstance(items, list) and items:
+                kv = self.apply(key, [items[0]], {}, node)
                 key_ok = isinstance(kv, _Score)
             elif key is None and isinstance(items, list) and items and isinstance(items[0], tuple) and isinstance(items[0][0], _Score):
                 key_ok = True  # tuples compare on their first component first
